@@ -461,7 +461,7 @@ func (fe *FnEnc) resolveModifiesAll(m string) map[string]string {
 	return out
 }
 
-var ghostCompSorts = map[string]string{"held": arrSort(sInt, sBool), "clock": sInt, "fault": sBool, "mutations": sInt, "blobReady": sBool, "truncated": sBool, "FLAGS": arrSort(sStr, sInt), "fswrites": sInt, "feeds": sInt, "lastEncodeTarget": sInt, "WROTE": arrSort(sStr, sInt), "MT": arrSort(sStr, sInt),
+var ghostCompSorts = map[string]string{"held": arrSort(sInt, sBool), "clock": sInt, "fault": sBool, "mutations": sInt, "blobReady": sBool, "truncated": sBool, "FLAGS": arrSort(sStr, sInt), "fswrites": sInt, "feeds": sInt, "lastEncodeTarget": sInt, "WROTE": arrSort(sStr, sInt), "RENAMED": arrSort(sStr, sInt), "MT": arrSort(sStr, sInt),
 	"HDR": arrSort(sInt, arrSort(sStr, sStr)), "M.ResponseWriter.status": arrSort(sInt, sInt), "M.BlobCreator.written": arrSort(sInt, sInt)}
 
 func (fe *FnEnc) safeResolve(env *Env, name string) (t types.Type) {
@@ -595,6 +595,11 @@ func (fe *FnEnc) applyContract(st *State, instr ssa.Instruction, fc *FuncContrac
 	envPre := fe.callEnv(pre, pre, fc, callee, inst, args, bindings, nil)
 	envPre.pre = true
 	fe.callOrd[fc.Key]++
+	// ghost: how often this call site has been executed (siteCount(Key, k) in specifications)
+	{
+		cn := fmt.Sprintf("SITE.%s#%d", fc.Key, fe.callOrd[fc.Key])
+		fe.setComp(st, cn, sInt, tArith("+", fe.getComp(st, cn, sInt), tInt(1)))
+	}
 	fe.cutPointsAt(st, fc.Key, fe.callOrd[fc.Key], pos, false)
 	for i := range fc.Requires {
 		cl := &fc.Requires[i]
